@@ -21,13 +21,17 @@ type CtxScenario struct {
 	Pre     []int   `json:"pre"`   // inputs cancelled before construction
 	Nils    []int   `json:"nils"`  // combine: others that are nil
 	Steps   [][]int `json:"steps"` // each step cancels these inputs at once (through one common parent); -1 = the returned cancel func
+	Race    bool    `json:"race,omitempty"` // the first two steps (or construction and the first step) run concurrently
+	Jitter  int     `json:"jitter_ns,omitempty"` // the second racer starts this many ns after the first (busy wait)
 	Profile string  `json:"profile"`
 }
 
 type keyT string
 
-// countingCtx hides its inner cancelCtx (Value returns nil) and implements AfterFunc, so that registrations made on
-// it through context.AfterFunc are observable.
+// countingCtx wraps a context handed to the library: it hides its inner cancelCtx (Value only passes the harness's own
+// keys through) and implements AfterFunc, so that registrations made on it through context.AfterFunc are observable;
+// and it is a scheduling point of the environment: under the controlled scheduler the library's calls of Err() (after
+// the error has been sampled) and AfterFunc() are gates, so a cancellation can be placed between them.
 type countingCtx struct {
 	inner context.Context
 	live  atomic.Int32
@@ -35,9 +39,20 @@ type countingCtx struct {
 
 func (c *countingCtx) Deadline() (time.Time, bool) { return c.inner.Deadline() }
 func (c *countingCtx) Done() <-chan struct{}       { return c.inner.Done() }
-func (c *countingCtx) Err() error                  { return c.inner.Err() }
-func (c *countingCtx) Value(any) any               { return nil }
+func (c *countingCtx) Err() error {
+	ctl.Gate("drv.ctx.err.before")
+	err := c.inner.Err()
+	ctl.Gate("drv.ctx.err")
+	return err
+}
+func (c *countingCtx) Value(k any) any {
+	if _, ok := k.(keyT); ok {
+		return c.inner.Value(k)
+	}
+	return nil
+}
 func (c *countingCtx) AfterFunc(f func()) func() bool {
+	ctl.Gate("drv.ctx.afterfunc")
 	c.live.Add(1)
 	var once sync.Once
 	dec := func() { once.Do(func() { c.live.Add(-1) }) }
@@ -52,6 +67,29 @@ func (c *countingCtx) AfterFunc(f func()) func() bool {
 }
 
 func genCtxScenario(rng *rand.Rand, profile, mode string) any {
+	if profile == "race" {
+		// cancellations racing each other / racing the construction (free-running mode makes these real races)
+		sc := &CtxScenario{Profile: profile, Race: true, Pre: []int{}, Nils: []int{}, Jitter: rng.Intn(6000)}
+		switch rng.Intn(3) {
+		case 0: // both contexts of a ChainAfterFunc cancelled at the same time by two goroutines
+			sc.Kind, sc.N = "chain", 1
+			if rng.Intn(2) == 0 {
+				sc.Steps = [][]int{{0}, {1}}
+			} else {
+				sc.Steps = [][]int{{1}, {0}}
+			}
+		case 1: // an other of CombineContext cancelled while the combined context is being constructed
+			sc.Kind, sc.N = "combine", 1+rng.Intn(8)
+			sc.Steps = [][]int{{1 + rng.Intn(sc.N)}}
+		default: // inputs of a ConflatedContext cancelled concurrently
+			sc.Kind, sc.N = "conflated", 2+rng.Intn(3)
+			sc.Steps = [][]int{{1}, {2}}
+			for i := 3; i <= sc.N; i++ {
+				sc.Steps = append(sc.Steps, []int{i})
+			}
+		}
+		return sc
+	}
 	sc := &CtxScenario{Profile: profile, Kind: []string{"combine", "conflated", "chain"}[rng.Intn(3)]}
 	lo := 0
 	switch sc.Kind {
@@ -141,12 +179,15 @@ func runCtxExec(execID int, sci any, e *Env) []rec.Ev {
 			ctx = context.WithValue(ctx, keyT("second"), "v2")
 		}
 		own[i] = c
-		if sc.Kind == "combine" && i >= 1 {
+		switch {
+		case sc.Kind == "combine" && i >= 1:
 			cc := &countingCtx{inner: ctx}
-			counters[i] = cc
+			counters[i] = cc // registrations on the others must be gone once the result is cancelled
 			inputs[i] = cc
-		} else {
-			inputs[i] = ctx
+		case sc.Kind == "combine":
+			inputs[i] = ctx // the primary stays a plain context (its values and cancellation propagate natively)
+		default:
+			inputs[i] = &countingCtx{inner: ctx}
 		}
 	}
 	cancelled := map[int]bool{}
@@ -178,8 +219,7 @@ func runCtxExec(execID int, sci any, e *Env) []rec.Ev {
 		ev["livereg"] = lr
 		e.R.Add(ev)
 	}
-	// construction
-	e.Spawn("S", func(g string) {
+	construct := func(g string) {
 		ctl.Gate("drv.call")
 		switch sc.Kind {
 		case "combine":
@@ -201,30 +241,84 @@ func runCtxExec(execID int, sci any, e *Env) []rec.Ev {
 		case "chain":
 			bigbuff.ChainAfterFunc(inputs[0], inputs[1], func() { calls.Add(1) })
 		}
-	})
-	e.WaitTerminal()
-	if e.Infra == "" && !e.Res.Diverged {
-		observe(0)
 	}
-	for s, st := range sc.Steps {
-		if e.Infra != "" || e.Res.Diverged {
-			break
-		}
-		s, st := s, st
-		e.Spawn("D", func(g string) {
+	var mu sync.Mutex
+	var flag atomic.Int32
+	doStep := func(s int, st []int, align int32) func(g string) {
+		return func(g string) {
 			ctl.Gate("drv.call")
+			if align > 0 && e.Mode == "c" {
+				// controlled mode: spread the racers in scheduling time
+				for k := (sc.Jitter / 7) % 9 * (s % 2); k > 0; k-- {
+					ctl.Gate("drv.nop")
+				}
+			}
+			if align > 0 && e.Mode != "c" {
+				// line the racing goroutines up (free-running mode only); the second one starts a little later
+				me := flag.Add(1)
+				for flag.Load() < align {
+				}
+				if me == align && sc.Jitter > 0 {
+					for t0 := time.Now(); time.Since(t0) < time.Duration(sc.Jitter); {
+					}
+				}
+			}
 			if len(st) == 1 && st[0] == -1 {
+				mu.Lock()
 				explicit = true
+				mu.Unlock()
 				if resCancel != nil {
 					resCancel()
 				}
 				return
 			}
+			mu.Lock()
 			for _, i := range st {
 				cancelled[i] = true
 			}
+			mu.Unlock()
 			pcancel[s]() // cancels every input of this step at once
+		}
+	}
+	first := 0
+	if sc.Race && sc.Kind == "combine" && len(sc.Steps) > 0 {
+		// construction and the first cancellation race
+		e.Spawn("S", func(g string) {
+			if e.Mode != "c" {
+				flag.Add(1)
+				for flag.Load() < 2 {
+				}
+			}
+			construct(g)
 		})
+		e.Spawn("D", doStep(0, sc.Steps[0], 2))
+		first = 1
+		e.WaitTerminal()
+		if e.Infra == "" && !e.Res.Diverged {
+			observe(1)
+		}
+	} else {
+		e.Spawn("S", construct)
+		e.WaitTerminal()
+		if e.Infra == "" && !e.Res.Diverged {
+			observe(0)
+		}
+		if sc.Race && len(sc.Steps) >= 2 && e.Infra == "" && !e.Res.Diverged {
+			// the first two cancellation steps race
+			e.Spawn("D1", doStep(0, sc.Steps[0], 2))
+			e.Spawn("D2", doStep(1, sc.Steps[1], 2))
+			first = 2
+			e.WaitTerminal()
+			if e.Infra == "" && !e.Res.Diverged {
+				observe(2)
+			}
+		}
+	}
+	for s := first; s < len(sc.Steps); s++ {
+		if e.Infra != "" || e.Res.Diverged {
+			break
+		}
+		e.Spawn("D", doStep(s, sc.Steps[s], 0))
 		e.WaitTerminal()
 		if e.Infra == "" && !e.Res.Diverged {
 			observe(s + 1)
